@@ -670,6 +670,27 @@ pub fn targets(out: &mut Vec<(String, Box<dyn Fn() -> Target>)>) {
         }),
     ));
     out.push((
+        format!("unizk/{TAG}/mul-pre"),
+        Box::new(|| {
+            // hiding PCS + preprocessed columns: step 4 of the repaired uni observation (b026681)
+            let air = MulAir { degree: 3, rows: 8, reps: 2, pre_next: true, main_next: true };
+            uni_target!(
+                "mul-pre",
+                air,
+                air.traces::<F>().0,
+                vec![],
+                (|| make_zk_config(6)),
+                fri_params,
+                MyConfigZk,
+                InnerFriZk,
+                fri_zk,
+                RecConfigZk,
+                rec_config_zk,
+                (1usize, 1usize, 2usize, 0usize)
+            )
+        }),
+    ));
+    out.push((
         format!("uni/{TAG}/mul-pre"),
         Box::new(|| {
             let air = MulAir { degree: 3, rows: 8, reps: 2, pre_next: true, main_next: true };
@@ -738,6 +759,24 @@ pub fn targets(out: &mut Vec<(String, Box<dyn Fn() -> Target>)>) {
                 vec![DemoAir::Mul(m)],
                 vec![m.traces::<F>().0],
                 vec![vec![]]
+            )
+        }),
+    ));
+    out.push((
+        format!("batchzk/{TAG}/mixed-pre"),
+        Box::new(move || {
+            // hiding PCS + a preprocessed round (committed without random codewords)
+            batch_target!(
+                "mixed-pre",
+                MyConfigZk,
+                InnerFriZk,
+                make_zk_config,
+                fri_zk,
+                RecConfigZk,
+                rec_config_zk,
+                vec![DemoAir::Add(AddAir { open_next: false }), DemoAir::Mul(mul)],
+                vec![add_trace::<F>(4), mul.traces::<F>().0],
+                vec![vec![], vec![]]
             )
         }),
     ));
